@@ -48,7 +48,8 @@ class P:
         self.subclasses = subclasses
 
 
-ANY = P("any")             # arbitrary Python value (host)
+ANY = P("any")             # arbitrary Python value owned by the host program
+VAL = P("val")             # any value at all (no ownership assumption)
 INT = P("int")
 STR = P("str")
 BOOL = P("bool")
@@ -58,6 +59,11 @@ FLOAT = P("float")
 
 def OBJ(cls, inv=True, nullable=False, subclasses=None):
     return P("obj", cls=cls, inv=inv, nullable=nullable, subclasses=subclasses)
+
+
+def FRESH(cls, nullable=False):
+    """Result is an object allocated by the callee."""
+    return P("fresh", cls=cls, nullable=nullable)
 
 
 def LIST(elem=None, nullable=False):
@@ -340,6 +346,23 @@ class SpecCtx:
 
     def fresh(self, name, sort):
         return self.I.ctx.fresh(name, sort)
+
+    def is_fresh(self, v, clsname):
+        """v is an object of class clsname allocated during the call.  At a call site (contract assumed)
+        this allocates the object; when the function itself is verified it is a proof goal."""
+        from .core import ALLOC_BASE
+        if self.at_call and self.result is not None and v.eq(self.result) and \
+                getattr(self.c.result, "kind", None) == "fresh":
+            return Val.is_VRef(v)       # the result object was already allocated by the call rule
+        if self.at_call:
+            nv = VRef(self.I.st.alloc(self.cid(clsname)))
+            if clsname in ("list", "tuple", "deque"):
+                self.I.ctx.assume(self.new.llen(nv) >= 0)
+            return v == nv
+        return z3.And(self.isinst(v, clsname), Val.r(v) >= ALLOC_BASE)
+
+    def enum(self, clsname, member):
+        return VRef(self.table.enum_refs[(self.cid(clsname), member)])
 
 
 # helpers usable in specs
